@@ -65,6 +65,22 @@ PROPS = {
                      "inside the initial relation computed by naive refinement; non-trivial = result strictly between identity "
                      "and full",
                 assumptions=PROOF_ASSUME + ["the partition-relation engine itself is not mirrored (950 lines of pointer code without observable internal state): it is tied to the proved reference by input/output behaviour only"]),
+    "C11": dict(level="proof", kinds=[("tah_hist", 3), ("nfah_hist", 1)], n=dict(quick=3000, thorough=60000, search=4000),
+                rule="operation histories (5–18 steps) over a pool of live explicit tree automata (and NFAs): construct, copy "
+                     "(with / without transitions / final states), copy-assign, self-assign, move, move-assign, AddTransition, "
+                     "SetStateFinal, EraseFinalStates, Clear, destroy, and library operations whose results share storage "
+                     "(RemoveUnreachableStates, RemoveUselessStates, UnionDisjointStates, ReindexStates into an existing "
+                     "destination, …); after EVERY step EVERY live automaton is read back (iteration + final states) and must "
+                     "show exactly the value the value-semantics model holds for it; non-trivial = at least 3 steps executed "
+                     "while several automata were alive and at least one mutation",
+                assumptions=PROOF_ASSUME),
+    "C12": dict(level="proof", kinds=[("tah_store", 1)], n=dict(quick=3000, thorough=60000, search=4000),
+                rule="sequences (4–24) of AddTransition (both overloads; repeated rules, nullary rules, one symbol number at "
+                     "several arities), SetStateFinal, SetStatesFinal, EraseFinalStates, Clear on one automaton, interleaved with "
+                     "ContainsTransition / IsStateFinal probes (present rules, near misses); after every step the iteration "
+                     "(multiset), GetAcceptTrans, operator[] for every used state and two others (with empty()), GetUsedStates, "
+                     "AreTransitionsEmpty are compared with the abstract rule / final sets; non-trivial = at least one mutation",
+                assumptions=PROOF_ASSUME),
     "C14": dict(level="proof", kinds=[("rename", 1)], n=dict(quick=3000, thorough=60000, search=4000),
                 rule="ReindexStates (functor / functor without final states / into an existing destination / weak translator / "
                      "fresh translator), CollapseStates, TranslateSymbols with injective, merging, identity and sparse maps, "
@@ -112,6 +128,10 @@ def nontrivial(prop, r):
         return "emptyA=0 emptyC=0" in v
     if prop == "C14":
         return "inj=0" in v
+    if prop == "C11":
+        return ("shared=1" in v and "mut=0" not in v) or c.startswith("nfah")
+    if prop == "C12":
+        return "mut=0" not in v
     if prop == "C16":
         return "between=1" in v
     if prop == "C09":
